@@ -110,9 +110,12 @@ def ensure_registered():
                             cands = busy
                         op = cands[_next(len(cands))]
                         states = sorted({rs.operator_states[q].value for q in op.parents if rs.operator_states[q] != OperatorState.COMPLETED})
+                        ndone = sum(1 for q in op.parents if rs.operator_states[q] == OperatorState.COMPLETED)
+                        if ndone < pr.get("min_done", 0):
+                            continue
                         if place([op], pl, pr["probe_ram"]):
                             s.probed = True
-                            _TAPE["moves"].append(("probe", pl.pipeline_id, states))
+                            _TAPE["moves"].append(("probe", pl.pipeline_id, states, ndone))
                             break
             for pl in s.known:
                 rs = pl.runtime_status()
